@@ -313,8 +313,43 @@ def r05_5(chk: Check):
     chk.floor("R05.5", 4)
 
 
+def r05_9(chk: Check) -> None:
+    """maxAl: when the wall residual at vw = vJ has no sign change on [lowerLimit, upperLimit], the bound returned is the end of the range at which
+    the residual was tested: negative at the upper end and everywhere -> the maximal alpha_n lies above the range -> upperLimit; positive at the lower
+    end and everywhere -> lowerLimit.  (findvwLTE compares alN with this bound to decide between a solution and the runaway sentinel.)"""
+    import ast
+    from ..core import walk_guarded
+    from ..hydro import TM
+    from ..nf import Ctx, match
+    S = chk.src
+    fi = S.func(f"{TM}.maxAl")
+    chk.touch(fi.name)
+    cx = Ctx(S, fi)
+    cnt = 0
+    for guards, st in walk_guarded(fi.node):
+        if not isinstance(st, ast.Return) or not guards:
+            continue
+        tested = None
+        for t, pol in guards:
+            if isinstance(t, tuple) or not pol:
+                continue
+            b = match(t, "__F(__X) < 0", cx) or match(t, "__F(__X) > 0", cx)
+            if b:
+                tested = b["X"]
+        if tested is None:
+            continue
+        cnt += 1
+        ok = isinstance(st.value, ast.Name) and st.value.id == tested
+        chk.ob("R05.9", fi.where(st), f"maxAl: without a sign change the bound returned is the end `{tested}` at which the residual was tested", ok,
+               f"returns `{ast.unparse(st.value) if st.value is not None else None}`", key=f"maxAl-no-root|{cnt}")
+    if cnt < 2:
+        from ..core import AnchorMissing
+        raise AnchorMissing("maxAl: the two no-sign-change exits not found")
+    chk.floor("R05.9", 2)
+
+
 def rules(chk: Check) -> None:
-    for grp in (r05_1, r05_23, r05_4, r05_5):
+    for grp in (r05_1, r05_23, r05_4, r05_5, r05_9):
         chk.stage(grp, chk)
     # R05.6: the matching handed back at the LTE velocity is the exact one: the re-evaluation of the upper end of the v+ bracket (cs^2 at T+ instead
     # of Tn) is entered on a sign change between the very points it then brackets, so it is not silently skipped in favour of the template fallback
@@ -325,8 +360,8 @@ def rules(chk: Check) -> None:
     # R05.7: tiny offsets of bracket ends point into the bracket (the end never lands just outside the admissible interval, where the
     # bracketed function jumps); results of root finders stored in locals are read (a refined bracket end is not dropped)
     from .shared import bracket_offsets_inward, solver_results_consumed
-    chk.stage(bracket_offsets_inward, chk, "R05.7", ("hydrodynamics", "hydrodynamicsTemplateModel"), 4)
-    chk.stage(solver_results_consumed, chk, "R05.7", ("hydrodynamics", "hydrodynamicsTemplateModel"), 25)
+    chk.stage(bracket_offsets_inward, chk, "R05.7", ("hydrodynamics", "hydrodynamicsTemplateModel"), 1)
+    chk.stage(solver_results_consumed, chk, "R05.7", ("hydrodynamics", "hydrodynamicsTemplateModel"), 10)
     # R05.8: initial guesses / brackets of the matching carry no hard-wired absolute scale (a bare number where a temperature is expected makes
     # the LTE velocity depend on the units of T: shared with C07 R07.4, hydrodynamics modules only)
     from ..core import Remap
